@@ -36,7 +36,7 @@ func (p *Parser) parseImport(parser *Parser) (Node, error) {
 
 			// Create an expression node for the template path
 			var templateExpr Node
-			if strings.HasPrefix(templatePath, "\"") && strings.HasSuffix(templatePath, "\"") {
+			if len(templatePath) >= 2 && strings.HasPrefix(templatePath, "\"") && strings.HasSuffix(templatePath, "\"") {
 				// It's already a quoted string
 				templateExpr = NewLiteralNode(templatePath[1:len(templatePath)-1], importLine)
 			} else {
